@@ -232,3 +232,20 @@ class SocketModule:
 
     def getaddrinfo(self, host, port):
         return [(self.AF_INET, 1, 6, "", (ip, 0)) for ip in self._addresses] + [(10, 1, 6, "", ("::1", 0, 0, 0))]
+
+
+def forward_open_path(frame):
+    """the connection path (size byte + padded segments) that ends a (Large) Forward Open request; None if not one"""
+    from spec.encap import try_parse_frame
+    p = try_parse_frame(frame)
+    if p is None or p[0] != 0x6F:
+        return None
+    msg = p[3][1]
+    if len(msg) < 2:
+        return None
+    data = msg[2 + 2 * msg[1]:]
+    if msg[0] == 0x54 and len(data) >= 35:
+        return data[35:]
+    if msg[0] == 0x5B and len(data) >= 39:
+        return data[39:]
+    return None
